@@ -26,6 +26,12 @@ CLAIMED = {
         'unchanged and in order, exactly size() returned values are copied out and nothing else is written, consecutive calls do not influence each other, and release_world destroys that object.',
    note=TB + 'World itself is stubbed here (its behaviour is C01-C15); libstdc++ out-of-line std::string members are modelled (engine/strmodel.py); Fortran/Python bindings outside.',
    technique='symbolic execution of clang LLVM IR + z3 (QF_BV/FP), recording stubs for the callee, bounded list and string lengths', design='4/C16'),
+ 'C09': dict(
+   text='Symbolic execution of the 2D overload of World::properties with the 3D overload replaced by a recording stub returning uninterpreted values: for every cross-section origin/direction, 2D point, depth and request list '
+        'up to the bound the 3D query is issued once, at the documented point (Cartesian: origin + x*direction at height z; spherical: the natural point at angle atan2(z,x), radius sqrt(x^2+z^2) pushed through the coordinate system), '
+        'with depth and list unchanged; velocity blocks are projected at their true offsets and every other slot is returned unchanged; a world without cross section throws.',
+   note=TB + 'exact-real reading with sqrt/atan2/sin/cos uninterpreted under contract axioms; the unit direction vector computed from JSON in parse_entries is a symbolic input (outside).',
+   technique='symbolic execution of clang LLVM IR + z3 (QF_NRA+UF), callee replaced by a recording stub, bounded request length', design='4/C09'),
 }
 NA_DEFAULT = 'check not built yet (work in progress; see DESIGN.md section 4 for the planned obligations)'
 NA = {
